@@ -3,8 +3,8 @@
     and compatibility relation, never with [merge]). *)
 From V.Lib Require Import Base Hex.
 From Coq Require Import String.
-From V.C13 Require Import Model Spec.
-From V.Gen Require Import C13Schema.
+From V.C13 Require Import Model Spec Postcard.
+From V.Gen Require Import C13Schema C13Wire.
 Local Open Scope Z_scope.
 
 (** Printer helpers used by the harness. *)
@@ -20,7 +20,10 @@ Inductive case :=
 | CRole (role sub : N) (before : D) (after : option D) (xb xa : option Z)
 | CExtract (p : D) (xp xt : option Z)
 | CSer (p : D) (o : outcome (option (Z * bool * option D * bool)) unit) (v1 v2 : option (option D))
-| CParse (head : list N) (len : Z) (o : outcome (option (D * option D)) unit).
+| CParse (head : list N) (len : Z) (o : outcome (option (D * option D)) unit)
+| CEffects (p : D) (t : option D)
+| CBytes (ver : Z) (v : wval) (b : list N)
+| CMut (b : list N) (impl_ok : bool).
 
 (** ** Shape *)
 Definition shape_entry_eqb (x y : string * string * list string) : bool :=
@@ -35,7 +38,7 @@ Definition norm_all (u : list N) (l : list D) : option (list D) := sequence (map
 Definition M (n : nat) := pczt_merge S_global S_transparent S_sapling S_orchard n.
 Definition Kl (n : nat) := lawful_kind n pczt_schema.
 Definition Kf (n : nat) := faithful_kind n pczt_schema.
-Definition gflags (p : D) : nat -> bool := match p with DS (g :: _) => flags_of g | _ => fun _ => false end.
+Definition gflags : D -> nat -> bool := pflags.
 
 Definition res_matches (all : list D) (m : option D) (o : imp_res) : bool :=
   match o, m with
@@ -44,11 +47,6 @@ Definition res_matches (all : list D) (m : option D) (o : imp_res) : bool :=
   | _, _ => false
   end.
 
-Fixpoint leaves (e : expr) : list nat :=
-  match e with
-  | EP i => [i]
-  | EC l => (fix go (l : list expr) : list nat := match l with [] => [] | x :: r => leaves x ++ go r end) l
-  end.
 Fixpoint insert_nat (x : nat) (l : list nat) : list nat :=
   match l with [] => [x] | y :: r => if Nat.leb x y then x :: l else y :: insert_nat x r end.
 Definition sort_nat (l : list nat) : list nat := fold_right insert_nat [] l.
@@ -179,6 +177,64 @@ Definition run_parse (head : list N) (len : Z) (o : outcome (option (D * option 
       match q with Some q' => D_eqb q' (snd (serialize_parse p)) | None => false end
   end.
 
+(** ** The transaction described (observed through [Pczt::into_effects]) *)
+Definition tx_of (p : D) : option D := obind (run_recipe tx_recipe pczt_schema p) tx_post.
+
+Fixpoint recipe_paths (path : list string) (r : recipe) {struct r} : list (list string) :=
+  match r with
+  | RLeaf => [path]
+  | RRec rs => (fix go (rs : list (string * recipe)) : list (list string) :=
+                  match rs with [] => [] | (nm, r') :: rs' => recipe_paths (path ++ [nm]) r' ++ go rs' end) rs
+  | RVec r' => recipe_paths path r'
+  end.
+Definition tx_paths : list (list string) := Eval vm_compute in recipe_paths [] tx_recipe.
+Definition tx_mask : mask := Eval vm_compute in mask_of (fun p => mem_path p tx_paths) [] pczt_schema.
+(** the fields the extraction reads, everything else blanked *)
+Definition txfields (p : D) : D := project tx_mask p.
+
+Definition run_effects (p : D) (t : option D) : bool :=
+  match tx_of p, t with
+  | Some m, Some t' => D_eqb m t'
+  | Some _, None => false
+  | None, _ => true
+  end.
+Definition prop_effects (p : D) (t : option D) : bool :=
+  match t, tx_of (txfields p) with
+  | Some t', Some m => D_eqb m t'
+  | _, _ => true
+  end.
+
+(** ** The byte layer: the serde tree of [v1::Pczt] / [v2::Pczt] and the bytes written *)
+Definition wval_eqb_fuel := 0%nat.
+Fixpoint wval_eqb (a b : wval) {struct a} : bool :=
+  match a, b with
+  | VN x, VN y => N.eqb x y
+  | VZ x, VZ y => Z.eqb x y
+  | VB x, VB y => Bool.eqb x y
+  | VL x, VL y => (fix go (x y : list wval) : bool :=
+                     match x, y with [], [] => true | a' :: x', b' :: y' => wval_eqb a' b' && go x' y' | _, _ => false end) x y
+  | VO None, VO None => true
+  | VO (Some x), VO (Some y) => wval_eqb x y
+  | VE t x, VE u y => Nat.eqb t u && wval_eqb x y
+  | _, _ => false
+  end.
+Definition run_bytes (ver : Z) (v : wval) (b : list N) : bool :=
+  option_eqb bytes_eqb (serialize_wire W_v1 W_v2 (Z.to_N ver) v) (Some b) &&
+  match parse_wire W_v1 W_v2 b with
+  | Ok (ver', v') => N.eqb ver' (Z.to_N ver) && wval_eqb v' v
+  | _ => false
+  end.
+Definition prop_bytes (ver : Z) (b : list N) : bool :=
+  bytes_eqb (firstn 4 b) MAGIC && ((ver =? 1) || (ver =? 2)) && N.eqb (of_le32 (firstn 4 (skipn 4 b))) (Z.to_N ver).
+
+(** mutated encodings: whatever the implementation accepts, the wire model accepts (the model does
+    not check UTF-8 nor the required v2 fields, so it may accept more) *)
+Definition run_mut (b : list N) (impl_ok : bool) : bool :=
+  implb impl_ok (match parse_wire W_v1 W_v2 b with Ok _ => true | _ => false end).
+Definition prop_mut (b : list N) (impl_ok : bool) : bool :=
+  implb impl_ok (Nat.leb 8 (List.length b) && bytes_eqb (firstn 4 b) MAGIC &&
+                 (let v := of_le32 (firstn 4 (skipn 4 b)) in N.eqb v 1 || N.eqb v 2)).
+
 Definition run_case (c : case) : bool :=
   match c with
   | CShape t => shape_ok t
@@ -187,6 +243,9 @@ Definition run_case (c : case) : bool :=
   | CExtract _ _ _ => true
   | CSer p o v1 v2 => run_ser p o v1 v2
   | CParse h l o => run_parse h l o
+  | CEffects p t => run_effects p t
+  | CBytes ver v b => run_bytes ver v b
+  | CMut b ok => run_mut b ok
   end.
 
 Definition prop_case (c : case) : bool :=
@@ -197,11 +256,30 @@ Definition prop_case (c : case) : bool :=
   | CExtract _ xp xt => match xt with Some y => oz_eqb xp (Some y) | None => true end
   | CSer p o v1 v2 => prop_ser p o v1 v2
   | CParse _ _ o => prop_parse o
+  | CEffects p t => prop_effects p t
+  | CBytes ver _ b => prop_bytes ver b
+  | CMut b ok => prop_mut b ok
   end.
 
+(** Class 1 is forgiven only when the round trip fails in exactly the listed way: everything else
+    holds and the value read back differs from the one written in anchor fields only. *)
+Local Open Scope string_scope.
+Definition anchor_paths : list (list string) := [["sapling"; "anchor"]; ["orchard"; "anchor"]; ["ironwood"; "anchor"]].
+Local Close Scope string_scope.
+Definition ser_only_anchor_differs (p : D) (o : outcome (option (Z * bool * option D * bool)) unit) (v1 v2 : option (option D)) : bool :=
+  match o with
+  | Ok (Some (ver, magic, Some q, stable)) =>
+      magic && stable &&
+      forallb (fun d => mem_path d anchor_paths) (diff_paths pczt_schema [] p q) &&
+      Bool.eqb (ver =? 1) (match v1 with Some _ => true | None => false end) &&
+      ((ver =? 1) || (ver =? 2)) &&
+      match v1 with Some None => false | _ => true end &&
+      match v2 with Some (Some _) => true | _ => false end
+  | _ => false
+  end.
 Definition known_class (c : case) : N :=
   match c with
-  | CSer p _ _ _ => if anchor_quirk p then 1%N else 0%N
+  | CSer p o v1 v2 => if anchor_quirk p && ser_only_anchor_differs p o v1 v2 then 1%N else 0%N
   | _ => 0%N
   end.
 
@@ -219,4 +297,8 @@ Definition tag_case (c : case) : N :=
   | CExtract _ _ xt => 200 + match xt with Some _ => 1 | None => 0 end
   | CSer p o _ _ => 210 + (match o with Ok (Some (v, _, _, _)) => Z.to_N v | _ => 0 end) + (if anchor_quirk p then 4 else 0)
   | CParse _ _ o => 220 + match o with Ok None => 0 | Ok (Some _) => 1 | _ => 2 end
+  | CEffects p t => 230 + (match tx_of p with Some _ => 1 | None => 0 end) + (match t with Some _ => 2 | None => 0 end)
+                    + (if is_v6 p then 4 else 0)
+  | CBytes ver _ _ => 240 + Z.to_N ver
+  | CMut b ok => 250 + (if ok then 1 else 0) + (match parse_wire W_v1 W_v2 b with Ok _ => 2 | Err TooShort => 4 | Err NotPczt => 6 | Err (UnknownVersion _) => 8 | _ => 0 end)
   end%N.
